@@ -857,7 +857,7 @@ func (sc *storeCase) schedule(skip bool, alterations bool) error {
 		}
 	}
 	// drain: in-order delivery of what is left, then allow everything
-	for it := 0; it < int(h.n)+2 && !sc.diverged && !sc.lost; it++ {
+	for it := 0; it < 2*int(h.n)+4 && !sc.diverged && !sc.lost; it++ {
 		nx := sc.next()
 		if nx > h.n {
 			break
